@@ -58,6 +58,33 @@ Theorem for_loop_cons : forall body x len parent v vs i s k,
   end.
 Proof. exact EvalProofs.for_loop_cons. Qed.
 
+(* break and continue: a sequence stops after the element that raised the interrupt ... *)
+Theorem sequence_stops_at_an_interrupt : forall O ps rec n l s k,
+  rlist O ps rec (n :: l) s k =
+  match rnode O ps rec n s k with
+  | (ODone, s', k') => if interrupted s' then (ODone, s', k') else rlist O ps rec l s' k'
+  | o => o
+  end.
+Proof. exact EvalProofs.rlist_cons. Qed.
+Theorem break_stops_the_sequence : forall O ps rec l s k,
+  exists s', rlist O ps rec (NBreak :: l) s k = (ODone, s', k) /\ r_intr (get_regs s') = Some Brk.
+Proof. exact EvalProofs.break_stops_the_sequence. Qed.
+Theorem continue_stops_the_sequence : forall O ps rec l s k,
+  exists s', rlist O ps rec (NContinue :: l) s k = (ODone, s', k) /\ r_intr (get_regs s') = Some Cont.
+Proof. exact EvalProofs.continue_stops_the_sequence. Qed.
+(* ... the loop that ran consumes it, whatever its body is and however the iterations ended ... *)
+Theorem for_loop_consumes_interrupt : forall body x len parent vs i s k s' k', vs <> [] ->
+  for_loop body x len parent vs i s k = (ODone, s', k') -> interrupted s' = false.
+Proof. exact EvalProofs.for_loop_consumes_interrupt. Qed.
+(* ... so break ends only the innermost for: whatever follows a for block that iterated is executed,
+   in the state the loop left, exactly as if no break or continue had occurred inside it *)
+Theorem break_ends_only_the_innermost_for : forall O ps rec x rng limit offset reversed body els rest s k arr lim off s' k',
+  eval_range O rng s = Ok arr -> attr_usize O limit s = Ok lim -> attr_usize O offset s = Ok off ->
+  iter_array arr lim (match off with Some z => z | None => 0%Z end) reversed <> [] ->
+  rnode O ps rec (NFor x rng limit offset reversed body els) s k = (ODone, s', k') ->
+  rlist O ps rec (NFor x rng limit offset reversed body els :: rest) s k = rlist O ps rec rest s' k'.
+Proof. exact EvalProofs.after_a_for_block_the_sequence_goes_on. Qed.
+
 (* non-vacuity: limit:4 offset:3 over five elements selects the last two (the pre-repair code
    produced two extra nil iterations); reversed applies to the selection *)
 Example c05_nonvacuous :
@@ -74,3 +101,8 @@ Print Assumptions tablerow_obj_truthful.
 Print Assumptions for_block_semantics.
 Print Assumptions for_loop_nil.
 Print Assumptions for_loop_cons.
+Print Assumptions sequence_stops_at_an_interrupt.
+Print Assumptions break_stops_the_sequence.
+Print Assumptions continue_stops_the_sequence.
+Print Assumptions for_loop_consumes_interrupt.
+Print Assumptions break_ends_only_the_innermost_for.
